@@ -565,10 +565,37 @@ def render_pcase(c, r):
         coq_bool(receive_reply_object_only()[0]), "true" if unit else "false", ETYPES[en][0], PTYPES[pn], coq_jval(c["tree"]), coq_pout(r["res"]))
 
 
+FLAGC = {"oneway": "Oneway", "more": "More", "upgrade": "Upgrade"}
+
+
+def render_bccase(c, r):
+    built = bool(r.get("built"))
+    return ("{| bc_m := %s; bc_frame := %s; bc_ops := [%s]; bc_built := %s; bc_meth := %s; bc_get := [%s]; "
+            "bc_enc := %s |}") % (
+        MTYPES[c["m"]][0], coq_jval(c["tree"]),
+        "; ".join("(%s, %s)" % (FLAGC[f], coq_bool(b)) for f, b in c["ops"]), coq_bool(built),
+        coq_opt(r.get("meth") if built else None, coq_rval),
+        "; ".join(coq_bool(b) for b in (r.get("get") or [])),
+        coq_opt(jparse(r["enc"]) if built and r.get("enc") else None, coq_jval))
+
+
+def render_brcase(c, r):
+    built = bool(r.get("built"))
+
+    def ob(x):
+        return "None" if x is None else "(Some %s)" % coq_bool(x)
+    return ("{| br_p := %s; br_frame := %s; br_ops := [%s]; br_built := %s; br_params := %s; br_cont := %s; "
+            "br_enc := %s |}") % (
+        PTYPES[c["p"]], "None" if c["ctor"] == "new_none" else "(Some %s)" % coq_jval(c["tree"]),
+        "; ".join(ob(x) for x in c["ops"]), coq_bool(built),
+        coq_opt(r.get("params") if built else None, coq_rval), coq_opt(r.get("continues") if built else None, coq_rval),
+        coq_opt(jparse(r["enc"]) if built and r.get("enc") else None, coq_jval))
+
+
 def harness_results(ck, cases):
     """Run the envelope harness; harness output is parsed keeping member order inside `enc` texts
     (they stay strings) - `j` payloads come back as plain dicts (sorted unique = BTreeMap view)."""
-    wire = [{k: v for k, v in c.items() if k in ("id", "op", "p", "e", "m", "meth", "frame")} for c in cases]
+    wire = [{k: v for k, v in c.items() if k in ("id", "op", "p", "e", "m", "meth", "frame", "ctor", "ops")} for c in cases]
     return ck.harness_run("envelope", wire)
 
 
